@@ -26,7 +26,7 @@ from yaw.correlation.corrfunc import CorrFunc
 from yaw.correlation.paircounts import NormalisedCounts, PatchedCounts, PatchedSumWeights
 from yaw.redshifts import HistData, RedshiftData
 
-from checks.common import CORR_MODULES, build_counts, conc_binning, sym_counts, vec, wrap
+from checks.common import member_auto, CORR_MODULES, build_counts, conc_binning, sym_counts, vec, wrap
 from vf import fmtstr, runner, symnp
 from vf.runner import Check, Harness
 from vf.stubs import fsmodel
@@ -53,7 +53,7 @@ class Hdf(Harness):
         d = {"combo": eng.choose(len(COMBOS), "members"), "auto": eng.choose(2, "auto"), "closed": eng.choose(2, "closed")}
         auto = bool(d["auto"])
         for t in ("dd", "dr", "rd", "rr"):
-            d.update(sym_counts(t, self.B, self.P, auto))
+            d.update(sym_counts(t, self.B, self.P, member_auto(t, auto)))
         # all members share the zero pattern of one symbolic count array (the sparse encoding forks on it once);
         # members remain distinguishable through a member-specific scale factor and their own weight sums
         for k, t in enumerate(("dr", "rd", "rr")):
@@ -76,7 +76,7 @@ class Hdf(Harness):
         members = ("dd",) + COMBOS[inp["combo"]]
         if self.wrong == "swap" and "dr" in members and "rd" not in members:
             pass
-        kw = {t: build_counts(inp, t, binning, auto) for t in members}
+        kw = {t: build_counts(inp, t, binning, member_auto(t, auto)) for t in members}
         cf = CorrFunc(**kw)
         if symbolic:
             root = H5Group()
@@ -95,11 +95,11 @@ class Hdf(Harness):
             if got is None:
                 continue
             src = t if self.wrong != "swap" else {"dr": "rr", "rr": "dr"}.get(t, t)
-            w2 = inp[src + "_w1"] if auto else inp[src + "_w2"]
+            w2 = inp[src + "_w1"] if member_auto(src, auto) else inp[src + "_w2"]
             out.append(Check(t + "_counts", got.counts.counts, inp[src + "_c"]))
             out.append(Check(t + "_sum_weights1", got.sum_weights.sum_weights1, inp[src + "_w1"]))
             out.append(Check(t + "_sum_weights2", got.sum_weights.sum_weights2, w2))
-            out.append(Check(t + "_meta", cond=(bool(got.auto) == auto and bool(got.sum_weights.auto) == auto and got.num_patches == self.P
+            out.append(Check(t + "_meta", cond=(bool(got.auto) == member_auto(t, auto) and bool(got.sum_weights.auto) == member_auto(t, auto) and got.num_patches == self.P
                                                  and str(got.binning.closed) == str(binning.closed))))
             out.append(Check(t + "_edges", got.binning.edges, inp["edges"]))
         out.append(Check("equal_operator", cond=bool(back == cf)))
@@ -215,7 +215,7 @@ class TextSpecial(Harness):
             back = cls.from_files(tmp + "/nz")
         finally:
             shutil.rmtree(tmp, ignore_errors=True)
-        same = lambda a, b: bool(np.all((np.isnan(a) & np.isnan(b)) | (np.isinf(a) & np.isinf(b) & (np.sign(a) == np.sign(b))) | (np.abs(a - b) <= 1e-6)))
+        same = lambda a, b: bool(np.all((np.isnan(a) & np.isnan(b)) | (np.isinf(a) & np.isinf(b) & (np.sign(a) == np.sign(b))) | (np.abs(a - b) <= 1e-4)))
         return [Check("data", cond=(back.data.shape == data.shape and same(back.data, data))),
                 Check("samples", cond=(back.samples.shape == samples.shape and same(back.samples, samples)))]
 
